@@ -17,13 +17,20 @@ system calls.  `crash_at=k` makes the process "die" when the k-th operation
 happen at all), and `Crash` (a BaseException) is raised; every later mutating
 call raises `Crash` again without touching the disk, so unwinding code cannot
 repair anything — that is what process death means.
+
+`mode="exc"` is the second fault mode: operation k raises an ordinary
+`OSError(ENOSPC)` instead (a content write raises from `fh.write()` after the
+first `torn` characters reached the file), the exception propagates through
+pharmpy's own `finally` / `__exit__` blocks, and the injector stays alive: the
+file-system operations of that cleanup code DO happen and are logged after the
+fault.
 """
 from __future__ import annotations
 
 import builtins
+import errno
 import io
 import os
-from pathlib import Path
 
 
 class Crash(BaseException):
@@ -33,11 +40,43 @@ class Crash(BaseException):
 _WRITE_FLAGS = os.O_WRONLY | os.O_RDWR
 
 
+class FaultyText(io.TextIOWrapper):
+    """A text file whose write() fails with ENOSPC once `limit` characters have been written."""
+
+    def __init__(self, path, append, limit, inj, encoding=None, errors=None, newline=None):
+        raw = io.FileIO(path, "a" if append else "w")
+        super().__init__(io.BufferedWriter(raw), encoding=encoding or "utf-8", errors=errors, newline=newline)
+        self._limit, self._n, self._inj = limit, 0, inj
+
+    def write(self, s):
+        room = self._limit - self._n
+        if len(s) <= room:
+            self._n += len(s)
+            return super().write(s)
+        if room > 0:
+            super().write(s[:room])
+            self._n += room
+        self.flush()
+        self._inj.delivered = True
+        raise OSError(errno.ENOSPC, "No space left on device (injected)")
+
+    def writelines(self, lines):
+        for ln in lines:
+            self.write(ln)
+
+
+def _open_sig(file, mode="r", buffering=-1, encoding=None, errors=None, newline=None, closefd=True, opener=None):
+    return dict(encoding=encoding, errors=errors, newline=newline)
+
+
 class Injector:
-    def __init__(self, root, crash_at=None, torn=None):
+    def __init__(self, root, crash_at=None, torn=None, mode="crash"):
         self.root = os.path.realpath(str(root))
         self.crash_at = crash_at
         self.torn = torn
+        self.mode = mode
+        self.delivered = False
+        self.fault_index = crash_at
         self.log = []
         self.crashed = False
         self.pending = []  # [(abs path, mode 'w'|'a', size before)]
@@ -63,6 +102,19 @@ class Injector:
 
     def _emit(self, entry, undo=None, tear=None):
         """Log one completed operation; die instead if it is the crash point."""
+        if self.mode == "exc" and self.crash_at is not None and len(self.log) == self.crash_at:
+            self.crash_at = None
+            if tear is not None:
+                # a content write whose fault was delivered by FaultyText.write (or could not be: binary file)
+                self.log.append(entry + ["torn"])
+                if self.delivered:
+                    return
+                self.delivered = True
+                raise OSError(errno.ENOSPC, "No space left on device (injected)")
+            self.delivered = True
+            if undo is not None:
+                undo()
+            raise OSError(errno.ENOSPC, "No space left on device (injected)")
         if self.crash_at is not None and len(self.log) == self.crash_at:
             self.crashed = True
             if tear is not None and self.torn is not None:
@@ -72,6 +124,15 @@ class Injector:
                 undo()
             raise Crash()
         self.log.append(entry)
+
+    def _fault_now(self):
+        """The operation about to be executed is the fault point: it does not happen."""
+        if self.mode == "exc":
+            self.crash_at = None
+            self.delivered = True
+            raise OSError(errno.ENOSPC, "No space left on device (injected)")
+        self.crashed = True
+        raise Crash()
 
     def flush(self):
         """Turn finished open-for-write files into write/append operations."""
@@ -123,8 +184,7 @@ class Injector:
             return self._orig["os.unlink"](path)  # raises
         # crash *before* the unlink == the operation does not happen
         if self.crash_at is not None and len(self.log) == self.crash_at:
-            self.crashed = True
-            raise Crash()
+            self._fault_now()
         self._orig["os.unlink"](path)
         self.log.append(["unlink", r])
 
@@ -133,8 +193,7 @@ class Injector:
         self.flush()
         r, a = self.rel(path)
         if r is not None and self.crash_at is not None and len(self.log) == self.crash_at:
-            self.crashed = True
-            raise Crash()
+            self._fault_now()
         self._orig["os.rmdir"](path)
         if r is not None:
             self.log.append(["rmdir", r])
@@ -154,8 +213,7 @@ class Injector:
             r1, a1 = self.rel(src)
             r2, a2 = self.rel(dst)
             if (r1 is not None or r2 is not None) and self.crash_at is not None and len(self.log) == self.crash_at:
-                self.crashed = True
-                raise Crash()
+                self._fault_now()
             self._orig[name](src, dst)
             if r1 is not None or r2 is not None:
                 self.log.append(["rename", r1 or a1, r2 or a2])
@@ -173,7 +231,7 @@ class Injector:
         if not existed or (flags & os.O_TRUNC):
             try:
                 self._emit(["create", r], undo=(lambda: self._orig["os.unlink"](a)) if not existed else None)
-            except Crash:
+            except BaseException:
                 os.close(fd)
                 raise
         return fd
@@ -202,10 +260,15 @@ class Injector:
                         f2.write(before)
                 try:
                     self._emit(["create", r], undo=(lambda: self._orig["os.unlink"](a)) if not existed else restore)
-                except Crash:
+                except BaseException:
                     fh.close()
                     raise
             self.pending.append((a, r, "a" if "a" in mode else "w", before if "a" in mode else ""))
+            if self.mode == "exc" and self.crash_at is not None and len(self.log) == self.crash_at and "b" not in mode:
+                # the content write of this file is the fault point: it fails after `torn` characters
+                fh.close()
+                kw = _open_sig(file, mode, *args, **kwargs)
+                return FaultyText(a, "a" in mode, self.torn or 0, self, **kw)
             return fh
         return f
 
